@@ -857,6 +857,14 @@ impl HandlerRunner {
             out.push(format!("!MON C03 handshake-without-outstanding-challenge-acted-on node={} reaction={}", idx,
                 events.iter().chain(sends.iter()).next().map(|s| s.chars().take(60).collect::<String>()).unwrap_or_default()));
         }
+        // a node that asks who the sender of the delivered datagram is did not open it (it may hold no
+        // session, or not the key the datagram was sealed under): its session with that address, if any,
+        // is gone for a reason of its own
+        if let Some(src) = self.cur_from {
+            if events.iter().any(|e| e.starts_with("wru>")) || self.delivering_handshake {
+                self.entry_dirty.insert((idx, src));
+            }
+        }
         if let Some(r) = self.cur_wru_second.take() {
             if !events.iter().any(|e| e.starts_with(&format!("fail>{}>", r))) {
                 out.push(format!("!MON C03 second-whoareyou-did-not-fail-the-request node={} rid={}", idx, r));
@@ -1691,7 +1699,10 @@ impl HandlerRunner {
                     }
                     self.entry_use.insert((tidx, src), std::time::Instant::now());
                     // (an answer to one of the handler's own requests may end the session: record not valid)
-                    if term.as_ref().map(|t| t.contains("resp/1000")).unwrap_or(false) {
+                    let internal_answer = term.as_ref().map(|t| {
+                        t.find("resp/").and_then(|i| t[i + 5..].split('/').next().and_then(|x| x.parse::<u64>().ok())).map(|r| r >= 1_000_000).unwrap_or(false)
+                    }).unwrap_or(false);
+                    if internal_answer {
                         self.entry_dirty.insert((tidx, src));
                     }
                 } else {
